@@ -2,6 +2,7 @@ SPECIFICATION Spec
 CONSTANTS
   Mods <- MCMods
   Absent <- MCAbsent
+  Broken <- MCBroken
   Variant = "osrc_by_component"
   MaxHistory = 3
 INVARIANT HistoryIndependent
